@@ -1,5 +1,6 @@
 // ExecImpl: shared declaration for the exec_*.cpp translation units.
 #pragma once
+#include <functional>
 #include <set>
 #include <sstream>
 
@@ -63,6 +64,7 @@ class ExecImpl : public ClauseSink {
   uint64_t hash = 0xcbf29ce484222325ULL;
   std::string fp;
   std::map<std::string, int> nontrivial;
+  std::vector<uint64_t> state_hashes;   // model state after every top-level step (distinct-states measure)
 
   // ---- recording ----
   Obs base_obs;
@@ -85,7 +87,9 @@ class ExecImpl : public ClauseSink {
 
   // ---- driving ----
   void run(const Plan& p);
+  size_t run_range(const std::vector<Op>& ops, size_t i, int level);
   void step(const Op& op, bool nested);
+  std::vector<int> scope_stack;   // shadow stepping: scoped expectations in creation order
   void fail(const char* props, const char* oracle, const std::string& text);
   void note(const std::string& s);  // event log (hashed)
   void nontriv(const char* prop) { ++nontrivial[prop]; }
@@ -97,9 +101,11 @@ class ExecImpl : public ClauseSink {
   void op_new_seq(const Op&);
   void op_move_seq(const Op&);
   void op_destroy_seq(const Op&);
-  void op_expect(const Op&);
+  void op_expect(const Op&, std::function<void()>* scope_body = nullptr);
   void op_release(const Op&);
   void release_exp(int id);
+  std::vector<XRep> release_model(int id);
+  void op_end_scope(const Op&);
   void op_abandon(const Op&);
   void op_call(const Op&);
   void op_q_sat(const Op&);
